@@ -210,8 +210,8 @@ def polyOracleWrap {α} (po : P α) (k : List (V3 Rat) → List (Nat × Nat × N
 
 def underflows (s : Shape3) (d dl : V3 Float) (Dl : V3 Rat) : Bool :=
   match s.uf with
-  | 1 => d.normSq == 0.0 || dl.normSq == 0.0
-  | 2 => (⟨dl.x, 0, dl.z⟩ : V3 Float).normSq == 0.0 && (Dl.x != 0 || Dl.z != 0)
+  | 1 => tinySq d.normSq || tinySq dl.normSq
+  | 2 => tinySq (⟨dl.x, 0, dl.z⟩ : V3 Float).normSq && (Dl.x != 0 || Dl.z != 0)
   | _ => false
 
 def csoHandler (mode : String) : Option Handler :=
